@@ -81,11 +81,12 @@ theorem C06_other_threads (s0 : BSt) (h0 : StartF s0) (hg : s0.cfg.grace ≠ 0) 
     (k : Nat) (r : Stmt) (hrk : r ∈ ((runOps s0 ops).th k).accepted)
     (hlt : r.ts < st.ts) : r ∈ ((runOps s0 ops).th k).popped := by
   have hF := (start_FI h0).runOps ops
-  have hG := (start_GI h0.start hg hr).runOps ops
+  have hG := (start_GI h0.start).runOps ops
+  have hc := (start_GI h0.start).cfg_runOps ops
   obtain ⟨pre, post, hacc⟩ := List.append_of_mem hst
   obtain ⟨more, hpop⟩ := hF.flush_flag_popped hacc hk hf
   have hsp : st ∈ ((runOps s0 ops).th i).popped := by rw [hpop]; simp
-  exact earlier_popped hF hG hp hsp hrk hlt
+  exact earlier_popped hF hG (by rw [hc]; exact hg) (by rw [hc]; exact hr) hp hsp hrk hlt
 
 /-- **The flush request is never dropped and never counted** (dropping *and* blocking queues). `enqFlow … 1 …` is the
     body of `flush_log` after the timestamp was read (first attempt, resumption after a stall, every retry). With
